@@ -219,6 +219,73 @@ func (c *Ctx) binConst(op Op, w int, a, b uint64) (uint64, bool) {
 	return 0, false
 }
 
+// MaxBits returns an upper bound on the number of significant bits of t read as unsigned.
+func MaxBits(t *Term) int {
+	return maxBits(t, 0)
+}
+
+func maxBits(t *Term, depth int) int {
+	if t.W == 0 {
+		return 1
+	}
+	if depth > 12 {
+		return t.W
+	}
+	r := t.W
+	switch t.Op {
+	case OConst:
+		r = bits.Len64(t.Val)
+	case OZExt:
+		r = maxBits(t.Args[0], depth+1)
+	case OConcat:
+		h := maxBits(t.Args[0], depth+1)
+		if h == 0 {
+			r = maxBits(t.Args[1], depth+1)
+		} else {
+			r = h + t.Args[1].W
+		}
+	case OAnd:
+		a, b := maxBits(t.Args[0], depth+1), maxBits(t.Args[1], depth+1)
+		if a < b {
+			r = a
+		} else {
+			r = b
+		}
+	case OOr, OXor:
+		a, b := maxBits(t.Args[0], depth+1), maxBits(t.Args[1], depth+1)
+		if a > b {
+			r = a
+		} else {
+			r = b
+		}
+	case OIte:
+		a, b := maxBits(t.Args[1], depth+1), maxBits(t.Args[2], depth+1)
+		if a > b {
+			r = a
+		} else {
+			r = b
+		}
+	case OAdd:
+		a, b := maxBits(t.Args[0], depth+1), maxBits(t.Args[1], depth+1)
+		if a < b {
+			a = b
+		}
+		r = a + 1
+	case OMul:
+		r = maxBits(t.Args[0], depth+1) + maxBits(t.Args[1], depth+1)
+	case OLShr:
+		r = maxBits(t.Args[0], depth+1)
+	case OUDiv, OURem:
+		r = maxBits(t.Args[0], depth+1)
+	case OTable, OUF, OVar, OExtract:
+		r = t.W
+	}
+	if r > t.W {
+		r = t.W
+	}
+	return r
+}
+
 // Bin builds a binary bit-vector operation with both operands of width w.
 func (c *Ctx) Bin(op Op, a, b *Term) *Term {
 	if a.W != b.W {
@@ -345,6 +412,9 @@ func (c *Ctx) Bin(op Op, a, b *Term) *Term {
 		if b.IsConst() && b.Val == 1 {
 			return a
 		}
+		if b.IsConst() && b.Val != 0 && a.Op == OMul && a.Args[1] == b && MaxBits(a.Args[0])+bits.Len64(b.Val) <= w {
+			return a.Args[0] // (x*c)/c with no overflow
+		}
 		if b.IsConst() && b.Val != 0 && b.Val&(b.Val-1) == 0 {
 			return c.Bin(OLShr, a, c.BV(w, uint64(bits.TrailingZeros64(b.Val))))
 		}
@@ -355,6 +425,9 @@ func (c *Ctx) Bin(op Op, a, b *Term) *Term {
 	case OSDiv:
 		if b.IsConst() && b.Val == 1 {
 			return a
+		}
+		if b.IsConst() && b.Val != 0 && sext(b.Val, w) > 0 && a.Op == OMul && a.Args[1] == b && MaxBits(a.Args[0])+bits.Len64(b.Val) <= w-1 {
+			return a.Args[0] // (x*c)/c, x and x*c non-negative, no overflow
 		}
 	}
 	return c.mk(op, w, 0, "", a, b)
@@ -605,6 +678,12 @@ func (c *Ctx) Eq(a, b *Term) *Term {
 			if a.Args[1].IsConst() {
 				return c.Eq(a.Args[0], c.BV(a.W, b.Val-a.Args[1].Val))
 			}
+		}
+	}
+	if a.Op == OMul && b.Op == OMul && a.Args[1].IsConst() && a.Args[1] == b.Args[1] && a.Args[1].Val != 0 {
+		k := bits.Len64(a.Args[1].Val)
+		if MaxBits(a.Args[0])+k <= a.W && MaxBits(b.Args[0])+k <= a.W {
+			return c.Eq(a.Args[0], b.Args[0])
 		}
 	}
 	if !b.IsConst() && a.ID > b.ID {
